@@ -148,8 +148,8 @@ def run(ctx):
     progs = [("g%d" % i, m, a, s) for i, (m, a, s, _) in enumerate(items)]
     # entry_points re-emits its input unchanged: reuse the contracts
     ep = [("e%d" % i, "entry_points", "", s) for i, (m, a, s, _) in enumerate(items) if m == "contract"][: n // 4]
-    res = l1.expand(progs + ep, "C13")
-    res2 = l1.expand(progs[: n // 3] + ep[: n // 12], "C13b")   # a second process, for determinism
+    res = l1.expand(progs + ep, "C13", level="first")
+    res2 = l1.expand(progs[: n // 3] + ep[: n // 12], "C13b", level="first")   # a second process, for determinism
     ops, impl = [], []
     bad = 0
     kinds = set()
